@@ -83,6 +83,32 @@ pub fn generate(seed: u64, thorough: bool) -> Vec<Value> {
             "base": base, "added": added, "updated": updated, "deleted": deleted, "shuffle": perm,
             "example": gen_example(&mut rng, true), "max_hops": rng.below(7), "domains": match rng.below(3) { 0 => json!(["example.org"]), 1 => json!(["example.org", "other.net"]), _ => json!([]) },
             "impact": {"rule": impact_rule, "action": *rng.pick(&["add", "update", "delete"]), "with_loop": rng.chance(1, 2)}}));
+        // loop focus: an example with an absolute URL on a host that a NON-EMPTY project-domain list does not contain, and a
+        // rule that sends that URL back to itself (directly, or through a second URL): the chain is a loop AND leaves the
+        // registered domains, the analyses must report both facts as the live pipeline produces them
+        if rng.chance(1, 6) {
+            let c = out.last_mut().unwrap();
+            c["domains"] = json!(["example.org"]);
+            c["max_hops"] = json!(2 + rng.below(4));
+            c["example"]["url"] = json!("http://other.net/b");
+            c["example"]["method"] = Value::Null; c["example"]["datetime"] = Value::Null;
+            let plain = |id: &str, path: &str, target: &str, code: u64| json!({"id": id, "rank": 0, "status_code": code, "target": target,
+                "source": {"path": path, "host": null, "methods": null, "response_status_codes": null, "exclude_response_status_codes": null, "weekdays": null, "datetime": null},
+                "header_filters": null, "body_filters": null, "log_override": null, "reset": null, "stop": null, "redirect_unit_id": null, "target_hash": null,
+                "configuration_log_unit_id": null, "configuration_reset_unit_id": null, "examples": null});
+            let code = *rng.pick(&[301u64, 302, 307]);
+            let mut rules: Vec<Value> = match rng.below(3) {
+                0 => vec![plain("r0", "/b", "/b", code)],
+                1 => vec![plain("r0", "/b", "http://other.net/b", code)],
+                _ => vec![plain("r0", "/b", "http://other.net/z", code), plain("r1", "/z", "http://other.net/b", code)],
+            };
+            let keep: Vec<Value> = c["base"].as_array().unwrap().iter().skip(rules.len()).filter(|r| r["source"]["path"] != json!("/b") && r["source"]["path"] != json!("/z")).cloned().collect();
+            rules.extend(keep);
+            c["base"] = json!(rules);
+            c["updated"] = json!([]); c["deleted"] = json!([]); c["added"] = json!([]);
+            let n = c["base"].as_array().unwrap().len();
+            c["shuffle"] = json!((0..n).rev().collect::<Vec<usize>>());
+        }
     }
     out
 }
